@@ -17,8 +17,13 @@ def setup_styles(env):
     """Lets the library find out what terminal it is on (real queries answered by the
     scripted terminal) and forces support for styles the identity does not support, so
     that every style can be rendered under every identity (public ``forced_support``)."""
+    import term_image
     from term_image.image import BlockImage, ITerm2Image, KittyImage
 
+    # The scripted terminal answers every query it is asked here; on a loaded machine its
+    # reply may take longer than the library's default 0.1 s, which must not change what
+    # the library believes about its terminal.
+    term_image.set_query_timeout(5.0)
     sup = {
         "kitty": KittyImage.is_supported(),
         "iterm2": ITerm2Image.is_supported(),
